@@ -416,6 +416,15 @@ def oracle(rng, thorough, deep=False, hints=None):
         cases.append(dict(tomo_seed=int(rng.integers(0, 1000)), tomo_shape=tshape, pos=pos, scale=scale,
                           quat=_rand_quat(rng, qk), shape=shape, order=order, corner_safe=cs,
                           chunks=chunks, exact=exact, kind=kind))
+    # rotations by exact multiples of 90 degrees at grid-coincident centres, nearest-neighbour sampling: the outermost
+    # sampled coordinates are window nodes up to 1e-16 (no slack may be assumed on either side)
+    from scipy.spatial.transform import Rotation as _R
+    for it, (axn, ang) in enumerate([("z", 90), ("z", 180), ("y", -90), ("x", 270), ("y", 180), ("x", 90)][: 6 if (thorough or deep) else 3]):
+        for order in (0, 1):
+            sbox = [5, 5, 5] if it % 2 == 0 else [7, 5, 3]
+            cases.append(dict(tomo_seed=int(rng.integers(0, 1000)), tomo_shape=[20, 21, 22], pos=[float(v) for v in rng.integers(7, 13, size=3)],
+                              scale=[1.0, 0.5][it % 2], quat=_R.from_euler(axn, ang, degrees=True).as_quat().tolist(), shape=sbox, order=order,
+                              corner_safe=False, chunks=None, exact=False, kind="rotated"))
     # identity orientation on integer positions with EVEN box axes: the samples fall between voxels
     for it in range(12 if (thorough or deep) else 4):
         tshape = [int(x) for x in rng.integers(20, 30, size=3)]
